@@ -83,7 +83,7 @@ def case(cid, rng, sc):
     user_scaler = kind in ("scale-source", "scale-target", "shift-source", "shift-target") and rng.random() < 0.4
     tr, te = (perm[:12], perm[12:]) if explicit else (None, None)
     c = {"id": cid, "kind": kind, "dx": dx, "dy": dy, "est": est_kind, "user_scaler": user_scaler, "raised": "", "X": np.round(X, 6).tolist(), "Y": np.round(Y, 6).tolist(),
-         "base": {}, "trans": {}, "gre_lin": 0, "grd_orth": 0, "gre_train": 0, "lre_all": [], "pgre_all": []}
+         "base": {}, "trans": {}, "lre_fix": 0, "lre_bigshift": 0, "lre_col": 0, "lre_colscaled": 0, "gre_lin": 0, "grd_orth": 0, "gre_train": 0, "lre_all": [], "pgre_all": []}
     try:
         with warnings.catch_warnings():
             warnings.simplefilter("ignore")
@@ -111,6 +111,17 @@ def case(cid, rng, sc):
             if intsrc:
                 X2 = np.rint(X * 3 if kind == "scale-source" else X + rng.integers(-9, 10, size=dx) * 1000).astype(np.int64)
             c["trans"] = measures(X2, Y2, n_local, est_kind, tr, te, user_scaler)
+            # in EVERY case: LRE under an offset of the source far beyond its spread, and (with a per-column scaler, which
+            # standardises before anything else) under a per-column rescaling of the source
+            from skmatter.metrics import local_reconstruction_error as _lre
+            from skmatter.linear_model import Ridge2FoldCV as _R2
+            from skmatter.preprocessing import StandardFlexibleScaler as _SFS
+            fixed = lambda: _R2(alphas=[1e-3], alpha_type="absolute", regularization_method="tikhonov", shuffle=False, n_jobs=1)
+            kwx = dict(train_idx=tr, test_idx=te)
+            c["lre_fix"] = q1(_lre(X, Y, n_local, estimator=fixed(), **kwx))
+            c["lre_bigshift"] = q1(_lre(X + rng.integers(1, 10, size=dx) * 1e6, Y, n_local, estimator=fixed(), **kwx))
+            c["lre_col"] = q1(_lre(X, Y, n_local, estimator=fixed(), scaler=_SFS(column_wise=True), **kwx))
+            c["lre_colscaled"] = q1(_lre(X * rng.choice([0.25, 3.0, 16.0, 100.0], size=dx), Y, n_local, estimator=fixed(), scaler=_SFS(column_wise=True), **kwx))
             # special constructions
             Alin = rng.integers(-3, 4, size=(dx, dy)).astype(float)
             if not np.any(Alin):
@@ -142,7 +153,7 @@ def gen(args):
     return [case("s%d" % k, rng, sc) for k, sc in scs]
 
 
-KEYS = ("id", "kind", "dx", "dy", "raised", "base", "trans", "gre_lin", "grd_orth", "gre_train", "lre_all", "pgre_all")
+KEYS = ("id", "kind", "dx", "dy", "raised", "base", "trans", "gre_lin", "grd_orth", "gre_train", "lre_all", "pgre_all", "lre_fix", "lre_bigshift", "lre_col", "lre_colscaled")
 
 
 def strip(c):
